@@ -233,6 +233,42 @@ def run(argv):
             w.close()
 
 
+def recheck(argv):
+    """Re-run the checks (not the tests) on every mutant that survived the tests; rewrites results.jsonl."""
+    j = int(argv[1]) if len(argv) > 1 and argv[0] == '-j' else 8
+    ids = [json.loads(l)['id'] for l in open(os.path.join(VERIF, 'properties.jsonl'))]
+    resp = os.path.join(OUT, 'results.jsonl')
+    rs = [json.loads(l) for l in open(resp)]
+    sv = [r for r in rs if r['status'] == 'survived']
+
+    def one(r):
+        d = tempfile.mkdtemp(prefix='sweepre.', dir='/tmp')
+        try:
+            subprocess.check_call('git -C %s archive HEAD | tar -x -C %s' % (REPO, d), shell=True)
+            path = os.path.join(d, r['file'])
+            lines = open(path).read().split('\n')
+            if lines[r['line'] - 1] != r['before']:
+                r['status'] = 'stale'
+                return
+            lines[r['line'] - 1] = r['after']
+            open(path, 'w').write('\n'.join(lines))
+            env = dict(os.environ, VERIF_REPO=d)
+            fired = {}
+            for p in ids:
+                rr = subprocess.run([os.path.join(VERIF, 'bin', 'check'), p], env=env, capture_output=True, text=True)
+                if rr.returncode != 0:
+                    fired[p] = re.findall(r'^  (C\d+\..+)$', rr.stdout, re.M)[:3]
+            r['fired'] = fired
+            print(r['id'], sorted(fired), flush=True)
+        finally:
+            shutil.rmtree(d, ignore_errors=True)
+    with ThreadPoolExecutor(max_workers=j) as ex:
+        list(ex.map(one, sv))
+    with open(resp, 'w') as f:
+        for r in rs:
+            f.write(json.dumps(r) + '\n')
+
+
 def report():
     rs = [json.loads(l) for l in open(os.path.join(OUT, 'results.jsonl'))]
     by = {}
@@ -253,5 +289,35 @@ if __name__ == '__main__':
         gen()
     elif cmd == 'run':
         run(sys.argv[2:])
+    elif cmd == 'try':
+        pass
+    elif cmd == 'recheck':
+        recheck(sys.argv[2:])
     else:
         report()
+
+
+def try_one(argv):
+    """python3 selftest/mutation_sweep.py try S0115 [Cxx ...]: apply one candidate to a scratch copy and run checks."""
+    mid = argv[0]
+    props = argv[1:] or [json.loads(l)['id'] for l in open(os.path.join(VERIF, 'properties.jsonl'))]
+    c = [json.loads(l) for l in open(os.path.join(OUT, 'mutants.jsonl')) if json.loads(l)['id'] == mid][0]
+    d = tempfile.mkdtemp(prefix='sweeptry.', dir='/tmp')
+    try:
+        subprocess.check_call('git -C %s archive HEAD | tar -x -C %s' % (REPO, d), shell=True)
+        path = os.path.join(d, c['file'])
+        lines = open(path).read().split('\n')
+        assert lines[c['line'] - 1] == c['before']
+        lines[c['line'] - 1] = c['after']
+        open(path, 'w').write('\n'.join(lines))
+        env = dict(os.environ, VERIF_REPO=d)
+        for p in props:
+            rr = subprocess.run([os.path.join(VERIF, 'bin', 'check'), p], env=env, capture_output=True, text=True)
+            keys = re.findall(r'^  (C\d+\..+)$', rr.stdout, re.M)
+            print(p, 'FIRES' if rr.returncode else 'quiet', keys[:3])
+    finally:
+        shutil.rmtree(d, ignore_errors=True)
+
+
+if __name__ == '__main__' and len(sys.argv) > 1 and sys.argv[1] == 'try':
+    try_one(sys.argv[2:])
